@@ -269,6 +269,8 @@ def _prior_thunks(entry, field, corruption, fact):
         "ode": w.exp_ode,
     }
     name = "tcoeffs" if field == "tcoeffs_mean" else field
+    if name == "tcoeffs_tree":
+        return _tree_tcoeffs_thunks(ssm, corruption)
     if name == "ode_order":
         order = {None: NUM + 1, "too_small": NUM, "too_large": NUM + 2}[corruption]
         variants = [(f"ODE order {order}, {NUM + 1} Taylor coefficients", ("ode", w.make_exp_ode(order)))]
@@ -295,6 +297,37 @@ def _prior_thunks(entry, field, corruption, fact):
         return thunk
 
     return [(lab, make(k, v)) for lab, (k, v) in variants]
+
+
+def _tree_tcoeffs_thunks(ssm, corruption):
+    """Taylor coefficients with three array leaves each; corrupted: ONE coefficient has some leaves of another shape
+    (same tree structure, same total size, so nothing downstream can notice by accident)"""
+
+    def coeff(k, shapes):
+        return {"a": jnp.full(shapes[0], 0.5 + k), "b": jnp.full(shapes[1], -0.25 * k), "c": jnp.full(shapes[2], 1.0)}
+
+    good = ((2, 3), (3,), ())
+    variants = {
+        None: [("valid three-leaf coefficients", [good, good, good])],
+        "mismatch": [
+            ("two of three fields swapped in coefficient 1", [good, ((3,), (2, 3), ()), good]),
+            ("one field of another rank in coefficient 2", [good, good, ((6,), (3,), ())]),
+            ("one field transposed in coefficient 1", [good, ((3, 2), (3,), ()), good]),
+        ],
+    }[corruption]
+
+    def make(shapes_per_coeff):
+        def thunk():
+            tc = [coeff(k, sh) for k, sh in enumerate(shapes_per_coeff)]
+            prior = ssm.prior_wiener_integrated(tc)
+            scale = prior.init.prototype_output_scale_calibrated()
+            cond = prior.transition(dt=DT, output_scale=jnp.ones_like(scale))
+            rv = cond.apply_flat(prior.init.mean_flat)
+            return [prior.init.mean, rv.mean, rv.std]
+
+        return thunk
+
+    return [(lab, make(sh)) for lab, sh in variants]
 
 
 def _transition_thunks(entry, field, corruption, fact):
